@@ -10,6 +10,10 @@ FILTER=${1:-.}
 cd /verif
 work=$(mktemp -d /tmp/verif-selftest.XXXXXX); trap 'rm -rf "$work"' EXIT
 cp bin/connectlint "$work/connectlint"; export CONNECTLINT="$work/connectlint"   # a rebuild during the run must not mix binaries
+# every variant is compiled once: a private build cache (warmed with the dependencies, removed with $work)
+# keeps some 30 MB per variant out of the user's cache
+export GOCACHE="$work/gocache" GOFLAGS=-mod=mod GOPROXY=off GOSUMDB=off GOTOOLCHAIN=local
+(cd /repo && go build ./... >/dev/null 2>&1)
 : > "$work/jobs"
 while read -r name props; do
   case "$name" in \#*|"") continue;; esac
